@@ -61,6 +61,8 @@ def gen_cases(tier, seed):
                 # a second structure solved in the same process right after the first: the same crystal with its atoms listed in another order,
                 # or the same crystal in the supercell with permuted axes (same atom count, same site symmetries, different arrangement)
                 "twin": [None, None, "order", "axes"][rng.integers(4)],
+                # the compiled distribution of the rows over the symmetry images has an OpenMP region: any thread count, same constants
+                "_threads": [1, 2, 3, 5, 7, 16][int(rng.integers(6))],
                 "_cost": nu * setup.det3(sm),
             }
             cases.append(c)
